@@ -34,7 +34,37 @@ type vfPublished struct {
 	Payload []byte
 }
 
-type vfMqtt struct{ Published []vfPublished }
+type vfMqtt struct {
+	Published []vfPublished
+	broker    *vfBroker // nil: recording only
+}
+
+// vfBroker is the in-process stand-in of the MQTT broker: every publish is
+// handed to each subscriber of the topic in a goroutine of its own (delivery
+// takes an arbitrary time).
+type vfBroker struct {
+	subs      []vfSub
+	delivered int
+}
+
+type vfSub struct {
+	topic string
+	cb    mqtt.MessageHandler
+	cli   mqtt.Client
+}
+
+type vfMessage struct {
+	topic   string
+	payload []byte
+}
+
+func (m *vfMessage) Duplicate() bool   { return false }
+func (m *vfMessage) Qos() byte         { return 0 }
+func (m *vfMessage) Retained() bool    { return false }
+func (m *vfMessage) Topic() string     { return m.topic }
+func (m *vfMessage) MessageID() uint16 { return 0 }
+func (m *vfMessage) Payload() []byte   { return m.payload }
+func (m *vfMessage) Ack()              {}
 
 func (m *vfMqtt) IsConnected() bool       { return true }
 func (m *vfMqtt) IsConnectionOpen() bool  { return true }
@@ -43,9 +73,21 @@ func (m *vfMqtt) Disconnect(quiesce uint) {}
 func (m *vfMqtt) Publish(topic string, qos byte, retained bool, payload interface{}) mqtt.Token {
 	b, _ := payload.([]byte)
 	m.Published = append(m.Published, vfPublished{Topic: topic, Payload: b})
+	if m.broker != nil {
+		for _, s := range m.broker.subs {
+			if s.topic == topic {
+				sub := s
+				m.broker.delivered++
+				go sub.cb(sub.cli, &vfMessage{topic: topic, payload: b})
+			}
+		}
+	}
 	return vfToken{}
 }
 func (m *vfMqtt) Subscribe(topic string, qos byte, callback mqtt.MessageHandler) mqtt.Token {
+	if m.broker != nil {
+		m.broker.subs = append(m.broker.subs, vfSub{topic: topic, cb: callback, cli: m})
+	}
 	return vfToken{}
 }
 func (m *vfMqtt) SubscribeMultiple(filters map[string]byte, callback mqtt.MessageHandler) mqtt.Token {
